@@ -42,48 +42,63 @@ theorem rfc_close_codes_accepted (code : Nat)
 /-! ## Received close frames -/
 
 /-- A received close frame is *accepted* (answered with a close echo and reported as
-`CloseError`) exactly when it has no status code (fewer than two payload bytes) or carries an
-allowed code and a UTF-8 reason; otherwise it is rejected with a protocol error. -/
+`CloseError`) exactly when its body is empty (no status) or has at least two bytes carrying an
+allowed code and a UTF-8 reason; otherwise — one-byte body (commit 13f4dfc8), forbidden code,
+invalid UTF-8 — it is rejected with a protocol error. -/
 theorem recv_close_accepted_iff (c : Conn) (payload : Bytes) :
     (∃ code text, (recvClose c payload).2.1 = .closeError code text) ↔
-      payload.length < 2 ∨
-        (isValidReceivedCloseCode (u16 payload) = true ∧ utf8Valid (payload.drop 2) = true) := by
+      payload.length = 0 ∨
+        (payload.length ≥ 2 ∧ isValidReceivedCloseCode (u16 payload) = true ∧ utf8Valid (payload.drop 2) = true) := by
   unfold recvClose
-  by_cases h2 : payload.length ≥ 2
-  · by_cases hv : isValidReceivedCloseCode (u16 payload) = true
-    · by_cases hu : utf8Valid (payload.drop 2) = true
-      · simp [h2, hv, hu]
-      · simp [h2, hv, hu] <;> omega
-    · simp [h2, hv] <;> omega
-  · simp [h2] <;> omega
+  by_cases h1 : payload.length = 1
+  · simp [h1]
+  · by_cases h2 : payload.length ≥ 2
+    · by_cases hv : isValidReceivedCloseCode (u16 payload) = true
+      · by_cases hu : utf8Valid (payload.drop 2) = true
+        · simp [h1, h2, hv, hu]
+        · have hne : payload ≠ [] := by intro h; subst h; simp at h2
+          simp [h1, h2, hv, hu, hne]
+      · have hne : payload ≠ [] := by intro h; subst h; simp at h2
+        simp [h1, h2, hv, hne]
+    · have h0 : payload.length = 0 := by omega
+      simp [h0]
 
-/-- …and then code and reason are reported unchanged. -/
+/-- …and then code and reason are reported unchanged (an empty body is reported as 1005, "no
+status received", with an empty reason). -/
 theorem recv_close_reports (c : Conn) (payload : Bytes) (h2 : payload.length ≥ 2)
     (hv : isValidReceivedCloseCode (u16 payload) = true) (hu : utf8Valid (payload.drop 2) = true) :
     (recvClose c payload).2.1 = .closeError (u16 payload) (payload.drop 2) := by
-  simp [recvClose, h2, hv, hu]
+  have h1 : ¬ payload.length = 1 := by omega
+  simp [recvClose, h1, h2, hv, hu]
+
+theorem recv_close_empty (c : Conn) : (recvClose c []).2.1 = .closeError 1005 [] := by
+  simp [recvClose, closeNoStatusReceived]
 
 /-- a rejected close frame is answered with a close frame carrying 1002 (protocol error) when no
 close frame was sent before. -/
 theorem recv_close_rejected_sends_1002 (c : Conn) (payload : Bytes) (hs : c.closeSent = false)
-    (h2 : payload.length ≥ 2)
-    (hbad : isValidReceivedCloseCode (u16 payload) = false ∨ utf8Valid (payload.drop 2) = false) :
+    (hbad : payload.length = 1 ∨ (payload.length ≥ 2 ∧
+      (isValidReceivedCloseCode (u16 payload) = false ∨ utf8Valid (payload.drop 2) = false))) :
     ∃ len msg, (recvClose c payload).2.2 = .wrote ([0x88, len, 0x03, 0xEA] ++ msg) := by
   unfold recvClose handleProtocolError
-  by_cases hv : isValidReceivedCloseCode (u16 payload) = true
-  · have hu : utf8Valid (payload.drop 2) = false := by
-      rcases hbad with h | h
-      · rw [h] at hv; cases hv
-      · exact h
-    simp [h2, hv, hu, writeClose, hs, formatCloseMessage, closeProtocolError, closeNoStatusReceived, be,
+  rcases hbad with h1 | ⟨h2, hbad⟩
+  · simp [h1, writeClose, hs, formatCloseMessage, closeProtocolError, closeNoStatusReceived, be,
       maxControlFramePayloadSize, ascii]
-  · have hv' : isValidReceivedCloseCode (u16 payload) = false := by
-      cases h : isValidReceivedCloseCode (u16 payload) <;> simp_all
-    simp [h2, hv', writeClose, hs, formatCloseMessage, closeProtocolError, closeNoStatusReceived, be,
-      maxControlFramePayloadSize]
-    split
-    · omega
-    · exact ⟨_, _, rfl⟩
+  · have h1 : ¬ payload.length = 1 := by omega
+    by_cases hv : isValidReceivedCloseCode (u16 payload) = true
+    · have hu : utf8Valid (payload.drop 2) = false := by
+        rcases hbad with h | h
+        · rw [h] at hv; cases hv
+        · exact h
+      simp [h1, h2, hv, hu, writeClose, hs, formatCloseMessage, closeProtocolError, closeNoStatusReceived, be,
+        maxControlFramePayloadSize, ascii]
+    · have hv' : isValidReceivedCloseCode (u16 payload) = false := by
+        cases h : isValidReceivedCloseCode (u16 payload) <;> simp_all
+      simp [h1, h2, hv', writeClose, hs, formatCloseMessage, closeProtocolError, closeNoStatusReceived, be,
+        maxControlFramePayloadSize]
+      split
+      · omega
+      · exact ⟨_, _, rfl⟩
 
 /-! ## First close wins -/
 
@@ -140,17 +155,20 @@ theorem writeClose_keeps (c : Conn) (data : Bytes) (v : Nat × Bool) (h : c.reco
 theorem recvClose_keeps (c : Conn) (payload : Bytes) (v : Nat × Bool) (h : c.recorded = some v) :
     (recvClose c payload).1.recorded = some v := by
   unfold recvClose handleProtocolError
-  by_cases h2 : payload.length ≥ 2
-  · by_cases hv : isValidReceivedCloseCode (u16 payload) = true
-    · by_cases hu : utf8Valid (payload.drop 2) = true
-      · simp [h2, hv, hu]
-        exact writeClose_keeps _ _ _ (by simp [h, record_some])
-      · simp [h2, hv, hu]
+  by_cases h1 : payload.length = 1
+  · simp [h1]
+    exact writeClose_keeps _ _ _ h
+  · by_cases h2 : payload.length ≥ 2
+    · by_cases hv : isValidReceivedCloseCode (u16 payload) = true
+      · by_cases hu : utf8Valid (payload.drop 2) = true
+        · simp [h1, h2, hv, hu]
+          exact writeClose_keeps _ _ _ (by simp [h, record_some])
+        · simp [h1, h2, hv, hu]
+          exact writeClose_keeps _ _ _ h
+      · simp [h1, h2, hv]
         exact writeClose_keeps _ _ _ h
-    · simp [h2, hv]
-      exact writeClose_keeps _ _ _ h
-  · simp [h2]
-    exact writeClose_keeps _ _ _ (by simp [h, record_some])
+    · simp [h1, h2]
+      exact writeClose_keeps _ _ _ (by simp [h, record_some])
 
 /-- … and the packed `int32` representation (`code | incoming<<16`, 0 = unset) is lossless. -/
 theorem unpack_pack (code : Nat) (inc : Bool) (h0 : 0 < code) (h1 : code ≤ 0xFFFF) :
